@@ -2,11 +2,12 @@
 long-running method (sync / asyncio client x grpc / rest transport) and record LroTrace events (C08).
 
 payload: {api, module, service, service_snake, pkg,
-          method: {name, snake, req, grpc_path, http_verb, http_path},
+          method: {name, snake, req, field, arg, grpc_path, http_verb, http_path, http_arg_suffix},
           kind: 'future'|'plain', resp, meta, out,              # full names, as the SPEC resolved them (used only to
                                                                 # build the server's replies from the INPUT descriptors)
           opname, poll_prefix,
-          runs: [{id, mode: sync|asyncio, transport: grpc|rest, k, outcome: response|error, value, code}]}
+          runs: [{id, mode: sync|asyncio, transport: grpc|rest, form: request|flattened, k, outcome: response|error,
+                  value, code}]}
 result : {runs: [{id, mode, transport, events, error}], versions}
 
 Server script for one run: operation states s_1 .. s_{k+1};  s_i (i <= k) is not done, s_{k+1} is done and carries
@@ -14,7 +15,8 @@ the packed response (value) or the error Status (code); every state carries meta
 reply to the RPC is s_1, the i-th GetOperation is answered with s_{i+1} (the last state again when overrun).
 
 Events (all carry the same fields; unused ones are ''/0):
-  start   rpc, chan          a call reached the server on the method's path / HTTP binding
+  start   rpc, chan, name    a call reached the server on the method's path / HTTP binding; name = the value of
+                             the request field `method.field` as decoded from the request (path variable for rest)
   poll    rpc, chan, name    a call reached the server on GetOperation; name as decoded from the request
   other   rpc                any other call that reached the server
   wrap    future, mtype, mvalue     the client method returned (future kind: sync|async|none)
@@ -182,7 +184,8 @@ class Script:
         chan = self.grpc_chan(path)
         m = self.pl['method']
         if path == m['grpc_path']:
-            self.events.append(blank(ev='start', rpc=m['name'], chan=chan))
+            arg = self.pool.decode(m['req'], reqs[0]).get(m['field'], '') if len(reqs) == 1 else '?'
+            self.events.append(blank(ev='start', rpc=m['name'], chan=chan, name=arg))
             if self.pl['kind'] == 'future':
                 return [self.state(1).SerializeToString()]
             return [self.plain_reply().SerializeToString()]
@@ -204,7 +207,8 @@ class Script:
         def js(msg):
             return json_format.MessageToJson(msg, descriptor_pool=self.pool.pool).encode()
         if verb == m['http_verb'] and path == m['http_path']:
-            self.events.append(blank(ev='start', rpc=m['name'], chan=chan))
+            arg = path[len(self.pl['poll_prefix']):len(path) - len(m['http_arg_suffix'])]
+            self.events.append(blank(ev='start', rpc=m['name'], chan=chan, name=arg))
             if self.pl['kind'] == 'future':
                 return 200, js(self.state(1)), {}
             return 200, js(self.plain_reply()), {}
@@ -259,11 +263,19 @@ def settle_fail(script, op, e):
     return crash(script, e)
 
 
+def call_args(script):
+    """the caller's argument, in a request object or as the flattened keyword named after the request field."""
+    m = script.pl['method']
+    if script.run.get('form', 'request') == 'flattened':
+        return {m['field']: m['arg']}
+    return {'request': {m['field']: m['arg']}}
+
+
 def run_sync(script, client):
     pl = script.pl
     m = pl['method']
     try:
-        ret = getattr(client, m['snake'])(request={'name': 'things/1'})
+        ret = getattr(client, m['snake'])(**call_args(script))
     except Exception as e:
         return crash(script, e)
     if pl['kind'] != 'future':
@@ -295,7 +307,7 @@ async def run_async(script, client):
     pl = script.pl
     m = pl['method']
     try:
-        ret = await getattr(client, m['snake'])(request={'name': 'things/1'})
+        ret = await getattr(client, m['snake'])(**call_args(script))
     except Exception as e:
         return crash(script, e)
     if pl['kind'] != 'future':
